@@ -4,7 +4,7 @@ Rules on the public API surface: derivative drivers (C04), recording overloads
 """
 import ast
 from .core import Finding, RuleResult
-from .model import AnalysisError, dotted_name, norm, walk_no_nested, seq_iteration
+from .model import AnalysisError, dotted_name, norm, walk_no_nested, seq_iteration, true_line
 from . import tracer_proto as tp
 from .effects import flat
 
@@ -1316,3 +1316,187 @@ def _unreachable_exception(ctx, fi, param):
         if 'math' not in ns:
             return 'the preceding statement evaluates math.ceil(...) and `math` is not bound in %s (NameError)' % fi.module
     return None
+
+
+# ----------------------------------------------------------------- R-rec-options / R-rec-unwrap / R-drv-dtype (round 7)
+def _flows_into(call, path_stmts, p):
+    """does parameter p reach the recording call on this path: named in the call itself, or stored into a local container
+    (dict / list built on the path) that the call names"""
+    names = {x.id for x in ast.walk(call) if isinstance(x, ast.Name)}
+    if p in names:
+        return True
+    for _ in range(3):
+        grew = False
+        for st in path_stmts:
+            tgt = None
+            val = None
+            if isinstance(st, ast.Assign):
+                for t in st.targets:
+                    b = t
+                    while isinstance(b, (ast.Subscript, ast.Attribute)):
+                        b = b.value
+                    if isinstance(b, ast.Name) and b.id in names:
+                        tgt, val = b.id, st.value
+            elif isinstance(st, ast.Expr) and isinstance(st.value, ast.Call) and isinstance(st.value.func, ast.Attribute) \
+                    and st.value.func.attr in ('append', 'extend', 'update', 'insert', 'setdefault') and isinstance(st.value.func.value, ast.Name) \
+                    and st.value.func.value.id in names:
+                tgt, val = st.value.func.value.id, st.value
+            if tgt is not None and val is not None:
+                new = {x.id for x in ast.walk(val) if isinstance(x, ast.Name)} - names
+                if new:
+                    names |= new
+                    grew = True
+        if not grew:
+            break
+    return p in names
+
+
+def rule_rec_options(ctx):
+    r = RuleResult('R-rec-options', 'a recorder hands every optional parameter it records (axis, dtype, k, UPLO, ...) to the recording call on every '
+                                    'returning path on which the parameter is not known to be None: a path that leaves it out under a truth test '
+                                    '(`if axis:`) records the default for the legitimate value 0 / an empty tuple, and every replay evaluates another program')
+    from .rules_tracer import _none_fact
+    m = ctx.model
+    for s in tp.recorder_sites(m):
+        fi = s.fi
+        if fi.cls == 'Function' and fi.name in tp.OUTSIDE_API:
+            continue
+        opts = [p for p in fi.value_params() if p in fi.defaults and p != 'out']
+        if not opts:
+            continue
+        # options that reach some recording call of the function at all (the others are judged by R-param-used)
+        recs = [c for c in walk_no_nested(fi.node) if isinstance(c, ast.Call) and isinstance(c.func, ast.Attribute) and c.func.attr == 'pushforward']
+        all_stmts = [st for st in walk_no_nested(fi.node) if isinstance(st, ast.stmt)]
+        for p in opts:
+            if not any(_flows_into(c, all_stmts, p) for c in recs):
+                continue
+            for i, path in enumerate(_paths(fi.node.body)):
+                stmts = [x for x in path if not isinstance(x, tuple)]
+                if not stmts or isinstance(stmts[-1], ast.Raise):
+                    continue
+                calls = [c for st in stmts for c in ast.walk(st) if isinstance(c, ast.Call) and isinstance(c.func, ast.Attribute) and c.func.attr == 'pushforward']
+                if not calls:
+                    continue
+                if any(_flows_into(c, stmts, p) for c in calls):
+                    r.ok(construct='%s:%s:path%d' % (_f(fi), p, i))
+                    continue
+                facts = [_none_fact(t_[1], t_[2], p) for t_ in path if isinstance(t_, tuple) and len(t_) > 2]
+                if 'none' in facts:
+                    r.ok(construct='%s:%s:path%d:none' % (_f(fi), p, i))
+                    continue
+                conds = [('' if t_[2] else 'not ') + norm(t_[1])[:40] for t_ in path if isinstance(t_, tuple) and len(t_) > 2]
+                r.bad(Finding('R-rec-options', _f(fi), 'option:%s' % p, '%s records without its parameter `%s` on the path [%s] although the parameter is not known to be '
+                                                                        'None there: the value the caller passed (e.g. 0) is replaced by the default in the graph'
+                              % (fi.qualname, p, ', '.join(conds)), fi.file, calls[0].lineno))
+    r.floor = 8
+    return r
+
+
+DISPATCH_MODULES = ('algopy.globalfuncs', 'algopy.special.special', 'algopy.linalg.compound', 'algopy.utils')
+
+
+def _unwrap_sites(tree_funcs):
+    """(function node, offending node, what) for reads of `<parameter>.x` and direct constructions `Function(...)`"""
+    out = []
+    for fn in tree_funcs:
+        a = fn.args
+        params = {x.arg for x in a.posonlyargs + a.args + a.kwonlyargs} | ({a.vararg.arg} if a.vararg else set())
+        loopvars = {t.id for n in ast.walk(fn) if isinstance(n, (ast.For, ast.comprehension)) for t in ast.walk(n.target) if isinstance(t, ast.Name)}
+        for n in ast.walk(fn):
+            if isinstance(n, ast.Attribute) and n.attr == 'x' and isinstance(n.value, ast.Name) and n.value.id in (params | loopvars) and isinstance(n.ctx, ast.Load):
+                out.append((fn, n, 'reads the payload `%s.x` of an operand' % n.value.id))
+            if isinstance(n, ast.Call) and dotted_name(n.func) in ('Function', 'algopy.Function', 'algopy.tracer.Function', 'algopy.tracer.tracer.Function'):
+                out.append((fn, n, 'constructs a graph node directly: `%s`' % norm(n)[:60]))
+    return out
+
+
+def rule_rec_unwrap(ctx):
+    r = RuleResult('R-rec-unwrap', 'outside the tracer module no dispatcher reads the payload `.x` of an operand or constructs a `Function` node itself: an '
+                                   'operation on traced operands is recorded (`<operand>.pushforward(op, args)` / the method of the operand\'s class); computing '
+                                   'on the recording-time value and wrapping the result freezes that value into the graph as a constant')
+    m = ctx.model
+    # the matcher must fire on a known positive (expected count on the tree is zero)
+    probe = ast.parse("def ones(shape, dtype=float):\n    return Function(numpy.ones(shape, dtype.x))\n")
+    if len(_unwrap_sites([probe.body[0]])) != 2:
+        r.unknown('R-rec-unwrap:selftest', 'the matcher no longer recognises its positive example')
+    n = 0
+    for modname in DISPATCH_MODULES:
+        mi = m.modules.get(modname)
+        if mi is None:
+            continue
+        for fi in mi.functions.values():
+            n += 1
+            hits = _unwrap_sites([fi.node])
+            if hits:
+                for fn, node, what in hits:
+                    r.bad(Finding('R-rec-unwrap', _f(fi), norm(node)[:60], '%s %s instead of recording the operation: every replay sees the value of the recording run'
+                                  % (fi.qualname, what), fi.file, true_line(node.lineno)))
+            else:
+                r.ok(construct=_f(fi))
+    r.floor = 60
+    return r
+
+
+def rule_drv_dtype(ctx):
+    r = RuleResult('R-drv-dtype', 'a seed / work buffer that a driver of CGraph allocates with an explicit dtype derived from some of its arguments only receives '
+                                  'data derived from those arguments: storing another argument into it (a direction `v` into a buffer typed like the point `x`) '
+                                  'casts that argument to the buffer\'s dtype (integer points truncate the direction)')
+    m = ctx.model
+    ci = m.cls('CGraph')
+    if ci is None:
+        raise AnalysisError('R-drv-dtype', TRACER, 'class CGraph vanished')
+    n_alloc = 0
+    for name, fi in sorted(ci.methods.items()):
+        params = set(fi.value_params())
+        if not params:
+            continue
+        # names derived from each parameter (flow-insensitive closure over plain assignments)
+        origin = {p: {p} for p in params}
+        for _ in range(4):
+            for st in walk_no_nested(fi.node):
+                if isinstance(st, ast.Assign) and len(st.targets) == 1 and isinstance(st.targets[0], ast.Name):
+                    src = set()
+                    for x in ast.walk(st.value):
+                        if isinstance(x, ast.Name) and x.id in origin:
+                            src |= origin[x.id]
+                    if src:
+                        origin.setdefault(st.targets[0].id, set()).update(src)
+        for st in walk_no_nested(fi.node):
+            if not (isinstance(st, ast.Assign) and len(st.targets) == 1 and isinstance(st.targets[0], ast.Name) and isinstance(st.value, ast.Call)):
+                continue
+            c = st.value
+            if (dotted_name(c.func) or '').split('.')[-1] not in ('zeros', 'empty', 'ones', 'zeros_like', 'empty_like', 'full'):
+                continue
+            n_alloc += 1
+            dt = next((k.value for k in c.keywords if k.arg == 'dtype'), None)
+            buf = st.targets[0].id
+            if dt is None:
+                r.ok(construct='%s:%s' % (_f(fi), buf), sample='%s: `%s` (default dtype)' % (fi.qualname, norm(st)[:60]))
+                continue
+            typed_by = set()
+            for x in ast.walk(dt):
+                if isinstance(x, ast.Name) and x.id in origin:
+                    typed_by |= origin[x.id]
+            if not typed_by:
+                r.ok(construct='%s:%s' % (_f(fi), buf))
+                continue
+            bad = []
+            for st2 in walk_no_nested(fi.node):
+                if isinstance(st2, (ast.Assign, ast.AugAssign)) and st2 is not st:
+                    tg = st2.targets if isinstance(st2, ast.Assign) else [st2.target]
+                    if any(isinstance(t, ast.Subscript) and _store_bases(t) == [buf] for t in tg):
+                        src = set()
+                        for x in ast.walk(st2.value):
+                            if isinstance(x, ast.Name) and x.id in origin:
+                                src |= origin[x.id]
+                        if (src & params) - typed_by:
+                            bad.append((st2, sorted((src & params) - typed_by)))
+            if bad:
+                for st2, who in bad:
+                    r.bad(Finding('R-drv-dtype', _f(fi), '%s<-%s' % (buf, ','.join(who)), '%s: `%s` takes its dtype from %s only, but `%s` stores data of %s into it: '
+                                                                                          'that data is cast to the buffer\'s dtype' % (fi.qualname, norm(st)[:60], sorted(typed_by & params),
+                                                                                                                                      norm(st2)[:50], who), fi.file, true_line(st2.lineno)))
+            else:
+                r.ok(construct='%s:%s' % (_f(fi), buf), nontrivial=True)
+    r.floor = 5
+    return r
